@@ -123,6 +123,11 @@ func runC10_9(c *core.Ctx) {
 				return found
 			}
 			ok, pos := allPathsStore(body.List, false, stores)
+			if !ok && pureAccounting(f, body) && laterFullStore(f, a, bs, n.(ast.Stmt)) {
+				// a pass that only totals lengths, followed in the same block by a loop over all segments that stores each
+				c.Ok(f.Name, "loop #"+itoa(loops)+" stores its segment on every path", body.Pos(), "accounting pass; the next loop over the segments stores them")
+				return true
+			}
 			c.Check(ok, f.Name, "loop #"+itoa(loops)+" stores its segment on every path", body.Pos(), "each iteration hands its segment to the ring or the list",
 				"an iteration of this loop over the segments can end (at "+c.P.Fset.Position(pos).String()+") without its segment having been stored: that segment is counted as accepted and dropped")
 			checkSplits(c, a, f, body)
@@ -314,4 +319,257 @@ func runC10_12(c *core.Ctx) {
 				f.Name+" releases the ring unconditionally (Done): if the operation leaves bytes in it – a writer that took only part, a partial read – those bytes go back to the pool with the ring and disappear from the stream; operations that consume use done(), which releases the ring only when it is empty")
 		}
 	})
+}
+
+func init() {
+	register(&core.Rule{ID: "C10.14", Prop: "C10", MinSites: 2,
+		Desc: "Reset and Release empty both halves: on every path elastic.Buffer.Reset calls ringBuffer.Reset() and listBuffer.Reset(), and Release calls ringBuffer.Done() and listBuffer.Reset() – a half left filled is delivered in front of (ring) or behind (list) the data of the next user of the buffer",
+		Run:  runC10_14})
+}
+
+func runC10_14(c *core.Ctx) {
+	a := elAnchors(c)
+	if a == nil {
+		return
+	}
+	want := map[string][][2]string{
+		"Reset":   {{"ring", "Reset"}, {"list", "Reset"}},
+		"Release": {{"ring", "Done"}, {"list", "Reset"}},
+	}
+	for _, name := range []string{"Reset", "Release"} {
+		f := a.funcs[name]
+		if f == nil {
+			c.Undecided("anchor", "elastic.Buffer."+name, 0, "method not found")
+			continue
+		}
+		p := &flow.Problem{Must: true}
+		p.Node = func(b *flow.Block, i int, n ast.Node, in uint64) uint64 {
+			for _, call := range flow.Calls(n) {
+				h, m := a.half(f, call)
+				for k, w := range want[name] {
+					if h == w[0] && m == w[1] {
+						in |= 1 << uint(k)
+					}
+				}
+			}
+			return in
+		}
+		sol := f.Graph().Solve(p)
+		missing := ""
+		var at token.Pos
+		sol.AtExit(func(b *flow.Block, facts uint64) {
+			for k, w := range want[name] {
+				if facts&(1<<uint(k)) == 0 && missing == "" {
+					missing, at = w[0]+"Buffer."+w[1]+"()", b.Return.Pos()
+				}
+			}
+		})
+		if at == token.NoPos {
+			at = f.Decl.Pos()
+		}
+		c.Check(missing == "", f.Name, "both halves emptied", at, "ring and list half are reset on every path",
+			name+" can return without "+missing+": the bytes left in that half are delivered to whoever uses the buffer next, mixed into their stream")
+	}
+}
+
+func init() {
+	register(&core.Rule{ID: "C10.15", Prop: "C10", MinSites: 3,
+		Desc: "accepted is what Writev reports: every loop of elastic.Buffer.Writev that stores segments adds len(segment) to a counter in each iteration (a top-level statement of the loop body, ahead of any break/continue), and that counter is what the following return hands back – the count is the caller's only statement of how much was accepted",
+		Run:  runC10_15})
+}
+
+func runC10_15(c *core.Ctx) {
+	a := elAnchors(c)
+	if a == nil {
+		return
+	}
+	f := a.funcs["Writev"]
+	if f == nil {
+		c.Undecided("anchor", "elastic.Buffer.Writev", 0, "method not found")
+		return
+	}
+	segs := f.param(0)
+	returned := map[types.Object]bool{}
+	ast.Inspect(f.Decl.Body, func(n ast.Node) bool {
+		if r, ok := n.(*ast.ReturnStmt); ok && len(r.Results) == 2 {
+			if o := flow.ObjOf(f.Info, r.Results[0]); o != nil {
+				returned[o] = true
+			}
+		}
+		return true
+	})
+	// a separate pass that totals all segments up front is as good as counting while storing
+	totalVars := map[types.Object]bool{}
+	ast.Inspect(f.Decl.Body, func(n ast.Node) bool {
+		rs, ok := n.(*ast.RangeStmt)
+		if !ok || flow.ObjOf(f.Info, rs.X) != types.Object(segs) || rs.Value == nil || len(rs.Body.List) != 1 {
+			return true
+		}
+		if as, ok := rs.Body.List[0].(*ast.AssignStmt); ok && as.Tok == token.ADD_ASSIGN && len(as.Lhs) == 1 && len(as.Rhs) == 1 {
+			if call, ok := ast.Unparen(as.Rhs[0]).(*ast.CallExpr); ok && len(call.Args) == 1 {
+				if id, ok := call.Fun.(*ast.Ident); ok && id.Name == "len" && flow.ObjOf(f.Info, call.Args[0]) == flow.ObjOf(f.Info, rs.Value) {
+					if o := flow.ObjOf(f.Info, as.Lhs[0]); o != nil {
+						totalVars[o] = true
+					}
+				}
+			}
+		}
+		return true
+	})
+	// the return that follows a loop (first return statement after its end)
+	nextReturns := func(after token.Pos) types.Object {
+		var best *ast.ReturnStmt
+		ast.Inspect(f.Decl.Body, func(n ast.Node) bool {
+			if r, ok := n.(*ast.ReturnStmt); ok && r.Pos() > after && len(r.Results) == 2 && (best == nil || r.Pos() < best.Pos()) {
+				best = r
+			}
+			return true
+		})
+		if best == nil {
+			return nil
+		}
+		return flow.ObjOf(f.Info, best.Results[0])
+	}
+	k := 0
+	ast.Inspect(f.Decl.Body, func(n ast.Node) bool {
+		var body *ast.BlockStmt
+		var seg types.Object
+		switch x := n.(type) {
+		case *ast.RangeStmt:
+			if flow.ObjOf(f.Info, x.X) == types.Object(segs) && x.Value != nil {
+				body, seg = x.Body, flow.ObjOf(f.Info, x.Value)
+			}
+		case *ast.ForStmt:
+			body = x.Body
+		default:
+			return true
+		}
+		if body == nil {
+			return true
+		}
+		stores := false
+		for _, call := range callsIn(body, false) {
+			if h, m := a.half(f, call); (h == "list" && m == "PushBack") || (h == "ring" && m == "Write") {
+				stores = true
+			}
+		}
+		if !stores {
+			return true
+		}
+		k++
+		isSeg := func(e ast.Expr) bool {
+			e = ast.Unparen(e)
+			if seg != nil && flow.ObjOf(f.Info, e) == seg {
+				return true
+			}
+			if ix, ok := e.(*ast.IndexExpr); ok && flow.ObjOf(f.Info, ix.X) == types.Object(segs) {
+				return true
+			}
+			return false
+		}
+		counted := false
+		for _, st := range body.List {
+			if as, ok := st.(*ast.AssignStmt); ok && as.Tok == token.ADD_ASSIGN && len(as.Lhs) == 1 && len(as.Rhs) == 1 {
+				if call, ok := ast.Unparen(as.Rhs[0]).(*ast.CallExpr); ok && len(call.Args) == 1 {
+					if id, ok := call.Fun.(*ast.Ident); ok && id.Name == "len" && isSeg(call.Args[0]) && returned[flow.ObjOf(f.Info, as.Lhs[0])] {
+						counted = true
+						break
+					}
+				}
+			}
+			leaves := false
+			ast.Inspect(st, func(m ast.Node) bool {
+				switch m.(type) {
+				case *ast.BranchStmt, *ast.ReturnStmt:
+					leaves = true
+				case *ast.FuncLit:
+					return false
+				}
+				return true
+			})
+			if leaves {
+				break
+			}
+		}
+		if !counted {
+			if o := nextReturns(n.End()); o != nil && totalVars[o] {
+				counted = true
+			}
+		}
+		c.Check(counted, f.Name, "segment loop #"+itoa(k)+" counts what it stores", n.Pos(), "counter += len(segment) in every iteration; the counter is returned",
+			"a loop of Writev stores segments without adding their length to the count it returns: Writev reports fewer bytes than it accepted, and a caller that trusts the count queues the 'rest' a second time")
+		return true
+	})
+}
+
+// pureAccounting: the loop body calls nothing but len/cap and assigns only local variables.
+func pureAccounting(f *fn, body *ast.BlockStmt) bool {
+	pure := true
+	ast.Inspect(body, func(n ast.Node) bool {
+		switch x := n.(type) {
+		case *ast.CallExpr:
+			if id, ok := x.Fun.(*ast.Ident); !ok || (id.Name != "len" && id.Name != "cap") {
+				pure = false
+			}
+		case *ast.AssignStmt:
+			for _, l := range x.Lhs {
+				if _, ok := ast.Unparen(l).(*ast.Ident); !ok {
+					pure = false
+				}
+			}
+		case *ast.BranchStmt, *ast.ReturnStmt, *ast.GoStmt, *ast.DeferStmt, *ast.SendStmt:
+			pure = false
+		}
+		return pure
+	})
+	return pure
+}
+
+// laterFullStore: a later statement of the same block ranges over all segments and stores each on every path.
+func laterFullStore(f *fn, a *elAnch, bs *types.Var, loop ast.Stmt) bool {
+	found := false
+	ast.Inspect(f.Decl.Body, func(n ast.Node) bool {
+		blk, ok := n.(*ast.BlockStmt)
+		if !ok || found {
+			return !found
+		}
+		at := -1
+		for i, st := range blk.List {
+			if st == loop {
+				at = i
+			}
+		}
+		if at < 0 {
+			return true
+		}
+		for _, st := range blk.List[at+1:] {
+			rs, ok := st.(*ast.RangeStmt)
+			if !ok || flow.ObjOf(f.Info, rs.X) != types.Object(bs) || rs.Value == nil {
+				if _, isRet := st.(*ast.ReturnStmt); isRet {
+					break
+				}
+				continue
+			}
+			ev := flow.ObjOf(f.Info, rs.Value)
+			stores := func(s ast.Stmt) bool {
+				hit := false
+				ast.Inspect(s, func(m ast.Node) bool {
+					if call, ok := m.(*ast.CallExpr); ok && a.isStore(f, call) {
+						for _, arg := range call.Args {
+							if base, _, _, _ := sliceParts(f.Info, arg); base != nil && base == ev {
+								hit = true
+							}
+						}
+					}
+					return true
+				})
+				return hit
+			}
+			if ok, _ := allPathsStore(rs.Body.List, false, stores); ok {
+				found = true
+			}
+		}
+		return true
+	})
+	return found
 }
